@@ -30,6 +30,16 @@ static void op_compose(Ctx& c) {
   HEAD("compose") o.vec("a", X.coeffs()); o.vec("b", Y.coeffs()); o.vec("r", R.coeffs());
   if (m & 1) o.mat("Ja", Ja); if (m & 2) o.mat("Jb", Jb); o.end();
 }
+// two operands whose zero patterns differ: one operand has the k-th linear block exactly zero (direction code z0/z1/z2:
+// zero position, zero velocity, zero time), the other is generic -- alternating which one (a fast path keyed on a zero block
+// of ONE operand must still use the matching block of the other)
+static void op_composex(Ctx& c) {
+  static long n = 0; const bool first = (n++ % 2) == 0;
+  G X = draw_element<G>(c.thc, c.linc, c.hemi, first ? c.dir : std::string("generic"), c.r);
+  G Y = draw_element<G>(c.thc2, c.linc2, "any", first ? std::string("generic") : c.dir, c.r);
+  G R = X.compose(Y);
+  { HEAD("compose") o.vec("a", X.coeffs()); o.vec("b", Y.coeffs()); o.vec("r", R.coeffs()); o.end(); }
+}
 static void op_inverse(Ctx& c) {
   G X = elemA(c); Jac Ja; G R = c.jac ? X.inverse(Ja) : X.inverse();
   HEAD("inverse") o.vec("a", X.coeffs()); o.vec("r", R.coeffs()); if (c.jac) o.mat("Ja", Ja); o.end();
@@ -296,7 +306,7 @@ int main(int argc, char** argv) {
     int reps = std::max(1, std::atoi(pl[10].c_str()));
     const std::string& op = pl[0];
     for (int k = 0; k < reps; ++k) {
-      if (op == "compose") op_compose(c); else if (op == "inverse") op_inverse(c); else if (op == "act") op_act(c);
+      if (op == "compose") op_compose(c); else if (op == "composex") op_composex(c); else if (op == "inverse") op_inverse(c); else if (op == "act") op_act(c);
       else if (op == "identity") op_identity(c); else if (op == "transform") op_transform(c);
       else if (op == "exp") op_exp(c); else if (op == "log") op_log(c); else if (op == "explog") op_explog(c);
       else if (op == "logtwin") op_logtwin(c); else if (op == "logchain") op_logchain(c);
